@@ -82,7 +82,7 @@ fn alphabet(n: usize, tier: Tier) -> Vec<Dev> {
         }));
     }
     // (`repr(C, u8)` cannot be copied to a field-less enum: rustc rejects the combination there)
-    for r in ["align(4), u8", "u8;align(2)", "align(2);i8"] {
+    for r in ["align(4), u8", "u8;align(2)", "align(2);i8", "C", "C, align(8)"] {
         d.push(dev(format!("repr({})", r.replace(';', ")] #[repr(")), &["repr"], move |s| {
             s.repr = Some(r.to_string());
             true
@@ -364,16 +364,16 @@ pub fn render(spec: &EnumSpec) -> String {
     if all.contains("strum::EnumIter") {
         o.push_str(&format!("    extras.push((\"derive(EnumIter) on the generated type: count\".into(), \"{n}\".into(), format!(\"{{}}\", <DC as strum::IntoEnumIterator>::iter().count())));\n", n = spec.variants.len()));
         for v in &spec.variants {
-            let snake = refsem::recase(&v.ident, refsem::Style::Snake);
+            let snake = refsem::recase(crate::spec::unraw(&v.ident), refsem::Style::Snake);
             o.push_str(&format!("    extras.push((\"pass-through serialize_all: Display of {id}\".into(), {sn:?}.into(), DC::{id}.to_string()));\n", id = v.ident, sn = snake));
             // two identifiers can share one snake_case name (Kk / KK): the first declared one is parsed
-            let first = spec.variants.iter().find(|w| refsem::recase(&w.ident, refsem::Style::Snake) == snake).map(|w| w.ident.clone()).unwrap_or_else(|| v.ident.clone());
+            let first = spec.variants.iter().find(|w| refsem::recase(crate::spec::unraw(&w.ident), refsem::Style::Snake) == snake).map(|w| w.ident.clone()).unwrap_or_else(|| v.ident.clone());
             o.push_str(&format!("    extras.push((\"pass-through serialize_all: EnumString of {sn}\".into(), \"Ok({id})\".into(), format!(\"{{:?}}\", <DC as core::str::FromStr>::from_str({sn:?}))));\n", id = crate::spec::unraw(&first), sn = snake));
         }
     }
     if all.contains("prefix = \"p/\"") {
         for v in &spec.variants {
-            let want = format!("p/{}", refsem::recase(&v.ident, refsem::Style::Snake));
+            let want = format!("p/{}", refsem::recase(crate::spec::unraw(&v.ident), refsem::Style::Snake));
             o.push_str(&format!("    extras.push((\"two strum(..) pass-through items (serialize_all + prefix): Display of {id}\".into(), {w:?}.into(), DC::{id}.to_string()));\n", id = v.ident, w = want));
         }
     }
@@ -382,7 +382,7 @@ pub fn render(spec: &EnumSpec) -> String {
         o.push_str(&format!("    extras.push((\"variant-level #[strum_discriminants(default)]: <D as Default>::default()\".into(), {id:?}.into(), format!(\"{{:?}}\", <DC as Default>::default())));\n", id = crate::spec::unraw(&last.ident)));
     }
     if all.contains("alias::Display") {
-        o.push_str(&format!("    extras.push((\"first derive list (strum::Display) took effect\".into(), {id:?}.into(), DC::{id}.to_string()));\n", id = spec.variants[0].ident));
+        o.push_str(&format!("    extras.push((\"first derive list (strum::Display) took effect\".into(), {nm:?}.into(), DC::{id}.to_string()));\n", id = spec.variants[0].ident, nm = crate::spec::unraw(&spec.variants[0].ident)));
         o.push_str(&format!("    extras.push((\"second derive list (alias::Display = EnumCount) took effect\".into(), \"{n}\".into(), format!(\"{{}}\", <DC as strum::EnumCount>::COUNT)));\n", n = spec.variants.len()));
     }
     if all.contains("strum::EnumMessage") {
@@ -404,7 +404,7 @@ pub fn check(ctx: &mut Ctx, obs: Vec<(usize, usize, &'static str, String, i128)>
         let v = &spec.variants[vi];
         ctx.transition();
         let who = format!("{} on value #{} of variant {} ({})", what, j, vi, v.ident);
-        let ok = ctx.expect_eq(&format!("conversion-{}", what), &who, &format!("{} = {}", v.ident, ds[vi]), &format!("{} = {}", name, num));
+        let ok = ctx.expect_eq(&format!("conversion-{}", what), &who, &format!("{} = {}", crate::spec::unraw(&v.ident), ds[vi]), &format!("{} = {}", name, num));
         ctx.outcome(match what {
             "From<E>" => "from-value",
             "From<&E>" => "from-ref",
